@@ -8,16 +8,49 @@ from .. import cards, common, realrun
 from ..common import Driver, q, unq
 
 
+GEV_CM2 = 3.893793e10
+
+
+def documented_coeffs(kind, y, x, Q2, pid, M2, M2W, GF):
+    """coefficients on (F2, FL, xF3) transcribed from docs/source/theory/intro.rst (independent of
+    exs.py): sigma = N [ Y+ F2 - y^2 FL +- Y- xF3 ], with the kind-specific N and Y+"""
+    yp, ym, yl = 1 + (1 - y) ** 2, 1 - (1 - y) ** 2, y * y
+    sgn = -1.0 if pid < 0 else 1.0
+    if kind == "g5":
+        return [1.0, -1.0, 0.0]
+    if kind == "F1":
+        return [1.0, -1.0, 0.0]
+    if kind == "XSHERANCAVG":
+        return [1.0, -yl / yp, 0.0]
+    if kind == "XSHERANC":
+        return [1.0, -yl / yp, sgn * ym / yp]
+    if kind == "XSHERACC":
+        return [yp / 4, -yl / 4, sgn * ym / 4]
+    mn = math.sqrt(M2)
+    if kind == "FW":
+        return [1.0, -(yl / (2 * (yl / 2 + (1 - y) - (mn * x * y) ** 2 / Q2))), 0.0]
+    if kind == "XSFPFCC":
+        n = (GEV_CM2 / 100.0) * GF**2 / (4 * math.pi * x * (1 + Q2 / M2W) ** 2)
+        return [n * yp, -n * yl, sgn * n * ym]
+    ypc = yp - 2 * (mn * x * y) ** 2 / Q2
+    n = {"XSCHORUSCC": GEV_CM2 * GF**2 * mn / (2 * math.pi * (1 + Q2 / M2W) ** 2), "XSNUTEVCC": 50.0 / (1 + Q2 / M2W) ** 2, "XSNUTEVNU": GEV_CM2 * GF**2 * mn / (2 * math.pi)}[kind]
+    return [n * ypc, -n * yl, sgn * n * ym]
+
+
 def corr(chk, r, n):
     from yadism.esf import exs
 
     drv = Driver()
     pend = []
-    for _ in range(n):
+    corners = [(kind, x, y, Q2) for kind in ("XSCHORUSCC", "XSNUTEVCC", "XSNUTEVNU", "FW", "XSHERACC", "XSFPFCC") for (x, y, Q2) in ((0.9, 0.9, 1.0), (0.7, 0.95, 0.5), (1.0, 1.0, 1.5), (0.95, 1.0, 0.3))]
+    for i_ in range(n + len(corners)):
         kind = r.choice(cards.XS)
         y = float(r.choice([1.0, 0.5, r.uniform(0.01, 1.0), r.uniform(0.01, 1.0)]))
         x = float(r.choice([0.1, r.uniform(1e-3, 0.9)]))
         Q2 = cards.rand_q2(r)
+        if i_ < len(corners):
+            # large x, y and small Q2: the documented y+ of the fixed-target kinds turns negative here
+            kind, x, y, Q2 = corners[i_]
         pid = r.choice([11, -11, 12, -12])
         M2 = float(r.choice([0.938**2, r.uniform(0.5, 2.0)]))
         m2w = float(r.choice([80.398**2, r.uniform(1000, 10000)]))
@@ -40,7 +73,10 @@ def corr(chk, r, n):
 def search(chk, r, n, max_pto):
     from yadism.esf import exs
 
-    for _ in range(n):
+    # structured block: heavy-flavour neutral-current cross sections in a massive scheme at high Q2
+    # (the heavy-quark initiated channels give xF3_charm/bottom a LO term)
+    structured = [("XSHERANC", "NC", proj, fl_) for proj in ("electron", "positron") for fl_ in ("charm", "bottom")] + [("XSHERANCAVG", "NC", "electron", "charm"), ("XSHERACC", "CC", "positron", "charm")]
+    for i_ in range(n + len(structured)):
         kind = r.choice(cards.XS)
         if kind == "g5":
             process, proj = r.choice(["NC"]), r.choice(["electron", "positron"])
@@ -54,7 +90,17 @@ def search(chk, r, n, max_pto):
         pto = r.choice(list(range(max_pto + 1)))
         tmc = r.choice([0, 0, 0, 1, 2]) if kind != "g5" and pto <= 1 else 0
         scheme, nfff = r.choice([("ZM-VFNS", 4), ("FFNS", 3)])
+        structured_case = i_ < len(structured)
+        if structured_case:
+            kind, process, proj, fl = structured[i_]
+            scheme, nfff, pto, tmc = "FFNS", 3, 0, 0
         pts = [dict(x=float(r.choice([0.05, 0.2, 0.5])), Q2=float(r.choice([8.0, 60.0, 900.0])), y=float(r.choice([0.2, 0.7, 1.0])))]
+        if kind in ("XSCHORUSCC", "XSNUTEVCC", "XSNUTEVNU", "FW") and r.random() < 0.5:
+            # the corner of large x, y and small Q2 where the documented Y+ of these kinds is negative
+            pts = [dict(r.choice([dict(x=0.9, y=0.9, Q2=1.0), dict(x=0.7, y=0.95, Q2=0.5), dict(x=0.8, y=1.0, Q2=0.8)]))]
+            tmc = 0
+        if structured_case:
+            pts = [dict(x=0.05, Q2=2000.0, y=0.7)]
         sfs = ["g4", "gL", "g1"] if kind == "g5" else ["F2", "FL", "F3"]
         name = f"{kind}_{fl}"
         obs = {name: pts}
@@ -69,10 +115,7 @@ def search(chk, r, n, max_pto):
             chk.extra["search_exceptions"][k] = chk.extra["search_exceptions"].get(k, 0) + 1
             continue
         xs = out[name][0]
-        if kind == "g5":
-            c = exs.xs_coeffs_polarized(kind)
-        else:
-            c = exs.xs_coeffs_unpolarized(kind, pts[0]["y"], x=pts[0]["x"], Q2=pts[0]["Q2"], params=dict(projectilePID=cards.PROJECTILES[proj], M2target=th["MP"] ** 2, M2W=th["MW"] ** 2, GF=th["GF"]))
+        c = documented_coeffs(kind, pts[0]["y"], pts[0]["x"], pts[0]["Q2"], cards.PROJECTILES[proj], th["MP"] ** 2, th["MW"] ** 2, th["GF"])
         parts = [out[f"{s}_{fl}"][0] for s in sfs]
         worst = scale = 0.0
         keys = set(xs.orders)
@@ -82,7 +125,7 @@ def search(chk, r, n, max_pto):
             worst = max(worst, float(np.abs(got - exp).max()))
             scale = max(scale, float(np.abs(exp).max()))
         sample = dict(kind=kind, obs=name, process=process, projectile=proj, pto=pto, TMC=tmc, FNS=scheme, point=pts[0], coeffs=[float(v) for v in c], maxdiff=worst, scale=scale, y_echoed=getattr(xs, "y", None))
-        ok = worst <= 1e-12 * max(scale, 1e-300) and getattr(xs, "y", None) == pts[0]["y"]
+        ok = worst <= 1e-11 * max(scale, 1e-300) and getattr(xs, "y", None) == pts[0]["y"]
         chk.search_case("xs_vs_sf_same_run", ok, what=f"{name} ({process},{proj},TMC={tmc}) != coefficient combination of the structure functions of the same run", data=sample, sample=sample, nontrivial=scale > 0)
 
 
@@ -130,6 +173,41 @@ def search_sequences(chk, r):
             chk.extra["search_exceptions"][k] = chk.extra["search_exceptions"].get(k, 0) + 1
 
 
+def search_lattice(chk, r, n):
+    """an (x, y) lattice drawn from one set of values at fixed Q2 (points with exchanged x and y),
+    all in one observable: every point must be the combination of the structure functions at *its* x"""
+    from yadism.esf import exs
+
+    vals = [0.2, 0.4, 0.6]
+    for i in range(n):
+        kind, process, proj = [("XSHERANC", "NC", "positron"), ("XSHERACC", "CC", "electron"), ("XSNUTEVCC", "CC", "neutrino")][i % 3]
+        Q2 = 20.0
+        pts = [dict(x=x, y=y, Q2=Q2) for x in vals for y in vals]
+        r.shuffle(pts)
+        name = f"{kind}_total"
+        obs = {name: pts}
+        for s_ in ("F2", "FL", "F3"):
+            obs[f"{s_}_total"] = [dict(x=x, Q2=Q2) for x in vals]
+        th = cards.theory(PTO=1)
+        try:
+            out = realrun.run(th, cards.obs(obs, prDIS=process, ProjectileDIS=proj, interpolation_xgrid=cards.default_grid(8, 1e-2)))
+        except Exception as e:  # noqa
+            chk.search_case("xs_lattice_of_exchanged_x_y", False, what=f"{name}: {type(e).__name__}: {e}"[:200], data=dict(kind=kind))
+            continue
+        for j, pt in enumerate(pts):
+            c = exs.xs_coeffs_unpolarized(kind, pt["y"], x=pt["x"], Q2=Q2, params=dict(projectilePID=cards.PROJECTILES[proj], M2target=th["MP"] ** 2, M2W=th["MW"] ** 2, GF=th["GF"]))
+            parts = [out[f"{s_}_total"][vals.index(pt["x"])] for s_ in ("F2", "FL", "F3")]
+            xs = out[name][j]
+            worst = scale = 0.0
+            for k in set(xs.orders) | set().union(*[set(p_.orders) for p_ in parts]):
+                exp = sum(float(ci) * np.asarray(p_.orders[k][0]) for ci, p_ in zip(c, parts) if k in p_.orders)
+                got = np.asarray(xs.orders[k][0]) if k in xs.orders else 0.0
+                worst = max(worst, float(np.abs(got - exp).max()))
+                scale = max(scale, float(np.abs(exp).max()))
+            d = dict(kind=kind, point=pt, position=j, maxdiff=worst, scale=scale)
+            chk.search_case("xs_lattice_of_exchanged_x_y", worst <= 1e-12 * max(scale, 1e-300), what=f"{name} point #{j} {pt} in a 3x3 lattice of exchanged x/y values != combination of the structure functions at its own x (diff {worst:.3g})", data=d, sample=d if j == 0 else None, nontrivial=scale > 0)
+
+
 def run(tier):
     chk = common.Check("C11", tier)
     thorough = tier == "thorough"
@@ -138,6 +216,7 @@ def run(tier):
     corr(chk, r, 5000 if thorough else 500)
     search(chk, r, 150 if thorough else 16, 2 if thorough else 1)
     search_sequences(chk, r)
+    search_lattice(chk, r, 6 if thorough else 2)
     chk.assumptions += [
         "np.pi and sqrt(M2target) enter the model as parameters (rational value of the double)",
         "the documented table is transcribed by hand from docs/source/theory/intro.rst into Properties/C11.lean (XSFPFCC after the doc fix e936043f)",
